@@ -321,7 +321,7 @@ namespace awkward {
           dtype = util::format_to_dtype(format, itemsize);
         }
         else if (json.HasMember("format")  &&  json["format"].IsString()  &&
-                 json.HasMember("itemsize")  &&  json["itemsize"].IsInt()) {
+                 json.HasMember("itemsize")  &&  json["itemsize"].IsInt64()) {
           format = json["format"].GetString();
           itemsize = json["itemsize"].GetInt64();
           dtype = util::format_to_dtype(format, itemsize);
@@ -334,7 +334,7 @@ namespace awkward {
         std::vector<int64_t> s;
         if (json.HasMember("inner_shape")  &&  json["inner_shape"].IsArray()) {
           for (auto& x : json["inner_shape"].GetArray()) {
-            if (x.IsInt()) {
+            if (x.IsInt64()) {
               s.push_back(x.GetInt64());
             }
             else {
@@ -457,7 +457,7 @@ namespace awkward {
             cls + std::string(" is missing its 'content'") + FILENAME(__LINE__));
         }
         FormPtr content = fromjson_part(json["content"]);
-        if (!json.HasMember("size")  ||  !json["size"].IsInt()) {
+        if (!json.HasMember("size")  ||  !json["size"].IsInt64()) {
           throw std::invalid_argument(
             cls + std::string(" is missing its 'size'") + FILENAME(__LINE__));
         }
